@@ -71,8 +71,12 @@ def check(res, tier, seed):
         # the object graph changes between requests on one link: the sub-object held NOW answers
         if r["outcome"] != r["expect"]:
             monitor_hits += 1
-            res.violation("resolve-mutating-graph", "%s: request %r was answered with %s (application code that ran: %s), expected %s - the method of the sub-object that is held now" % (
-                r["step"], r["fn"], r["outcome"], r.get("hits"), r["expect"]), dict(kind="resolve-mutating-graph", case=r))
+            if r["expect"] == "NO-APPLICATION-CODE":
+                res.violation("resolve-no-function", "%s: the frame %s ran application code %s (answer: %s): a request runs application code only if ITS function name is a path to an exported method" % (
+                    r["step"], r["fn"], r.get("hits"), r["outcome"][:200]), dict(kind="resolve-mutating-graph", case=r))
+            else:
+                res.violation("resolve-mutating-graph", "%s: request %r was answered with %s (application code that ran: %s), expected %s - the method of the sub-object that is held now" % (
+                    r["step"], r["fn"], r["outcome"], r.get("hits"), r["expect"]), dict(kind="resolve-mutating-graph", case=r))
     recs = [x for x in recs if not x.get("mut")]
     for r in recs:
         if "desc" in r:
